@@ -62,11 +62,13 @@ impl EPipe {
         let ns = g.tape.below(max_sel + 1);
         let mut selects = Vec::new();
         let digit_names = g.tape.chance(1, 6);
+        // names that differ only in letter case
+        let case_names = !digit_names && g.tape.chance(1, 8);
         for i in 0..ns {
             let k = *g.tape.pick(LEAF_KINDS);
             let e = g.expr(k, depth, &env);
             // digits that are not the position of the selection
-            let name = if digit_names { format!("{}", (i + 1) % (max_sel + 1)) } else { format!("s{}", i) };
+            let name = if digit_names { format!("{}", (i + 1) % (max_sel + 1)) } else if case_names { ["k", "K", "kk", "KK", "Kk"][i % 5].to_string() } else { format!("s{}", i) };
             selects.push((e, name.clone()));
             env.sels.push((name, k));
         }
